@@ -2,7 +2,7 @@
 # tools/seed_matrix.sh [tier]  - run every seeded change against the check of its property (and the extra checks named in meta.json caught_by)
 cd "$(dirname "$0")/.."
 tier="${1:-quick}"
-for d in seeded/C*/; do
+for d in seeded/${SEED_GLOB:-C*}/; do
   id=$(basename "$d")
   checks=$(python3 -c "
 import json,re
